@@ -127,7 +127,15 @@ impl Request {
         &mut self,
         bytes: usize,
     ) -> Result<(), Error> {
-        self.total_bytes += bytes;
+        match self.total_bytes.checked_add(bytes) {
+            Some(total_bytes) => self.total_bytes = total_bytes,
+            None => {
+                self.total_bytes = usize::MAX;
+                if self.max_message_size.is_some() {
+                    return Err(Error::MessageTooLong);
+                }
+            },
+        }
         match self.max_message_size {
             Some(max_message_size) if self.total_bytes > max_message_size => {
                 Err(Error::MessageTooLong)
